@@ -134,7 +134,7 @@ int main(int argc, char **argv)
   for (size_t ci = 0; ci < confs.size(); ci++) {
     if (only.size() && only != confs[ci].name) continue;
     int nl = confs[ci].forces ? 10 : 5;
-    int L = confs[ci].forces ? (thorough ? 4 : 3) : (thorough ? 6 : 4);
+    int L = confs[ci].forces ? (thorough ? 4 : 3) : (thorough ? 5 : 4);
     Ls[ci] = L;
     long nw = 1;
     for (int i = 0; i < L; i++) nw *= nl;
